@@ -12,6 +12,17 @@ CHECKS = {
  'C02': dict(engine='mirsmt', section='3 C02', text='Bounded symbolic execution of the real MIR (Matrix2/3/4 at the abstract scalar) with every matrix entry a solver variable: determinant = Leibniz expansion, invert() None exactly on det = 0 and otherwise a two-sided inverse, transpose laws, swap_* with symbolic indices forked over all in-range values. unsat covers every real matrix including exactly singular and nearly singular ones; a counterexample is replayed on the native build before it is reported.',
              note=M_NOTE + 'Bounds: dimension 2-4 (all that exist), executor fuel 400000 statements / 512 forks.', technique='symbolic execution of rustc MIR + SMT (QF_NRA, z3 portfolio)'),
 }
+def M(section, what, bounds='dimensions that exist (1-4); executor fuel 400000 statements / 512 forks per harness'):
+    return dict(engine='mirsmt', section=section, text='Bounded symbolic execution of the real MIR of /repo (generic code monomorphised at an abstract scalar, all inputs solver variables), one SMT query per (path, assertion, component); ' + what + ' unsat = holds for every real input on that path; a sat model is replayed on the native build (dev and release) before it is reported.',
+                note=M_NOTE + 'Bounds: ' + bounds + '.', technique='symbolic execution of rustc MIR + SMT (QF_NRA, z3 portfolio)')
+CHECKS.update({
+ 'C03': M('3 C03', 'every vector operator, ElementWise method, dot/sum/product, cross (antisymmetry, orthogonality, Lagrange, triple product) and perp_dot for Vector1-4 at the abstract real scalar, and the same harnesses at i32/i64 with inputs bounded so that no intermediate overflows (mathematical integers; division and remainder compared operation for operation).',
+          'dimensions 1-4; integer inputs |x| <= 1000 (30 for cubic identities); fuel/forks as above'),
+ 'C04': M('3 C04', 'Hamilton product against a written-out oracle, associativity, distributivity, conjugate anti-automorphism, norm multiplicativity, q*invert(q)=1 for q != 0, q*v = v + 2 qv x (qv x v + s v) for every q, and for |q|^2 = 1 (a constraint, not a sample) equality with the sandwich product, length preservation and (pq)v = p(qv); Sum/Product folds.'),
+ 'C05': M('3 C05', 'for every unit quaternion (constraint |q|^2 = 1) the Matrix3/Matrix4/Basis3 conversions equal the textbook matrix, rotate vectors identically, are orthonormal with det +1, respect composition, and Quaternion::from(Matrix3::from(q)) is q or -q on each of the four branches (each branch also proved reachable).'),
+ 'C11': M('3 C11', 'magnitude/distance/normalize/normalize_to/project_on for Vector1-4, Point1-3 and Quaternion with sqrt as an axiomatised opaque function, and angle(): |u||v|cos = u.v, range and symmetry for the acos form (dimension 1, 4, quaternion; Cauchy-Schwarz via a solver-checked Lagrange-identity lemma) and the atan2 forms (2-D signed, 3-D), using scalar lemma functions that are themselves harnesses.'),
+ 'C12': M('3 C12', 'the affine-space laws, to_vec/from_vec/origin, scalar and ElementWise operators, dot, midpoint, centroid of 1-4 points (the slice iterator runs in the executor) and homogeneous coordinates for Point1-3 at the abstract real scalar, and the laws at i32 with bounded inputs.', 'dimensions 1-3; centroid over 1-4 points; integer inputs |x| <= 1000'),
+})
 NOT_APPLICABLE = []
 ALL = ['C%02d' % i for i in range(1, 21)]
 def main():
